@@ -25,3 +25,12 @@ Fixpoint set_nth {A} (l : list A) (i : nat) (x : A) : list A :=
   | _ :: r, O => x :: r
   | y :: r, S j => y :: set_nth r j x
   end.
+
+(* a Go slice of pointers whose elements may be nil, e.g. Subtitles.Items : []*Item; nonNilItems (subtitles.go) keeps
+   the non-nil elements in order, and every writer starts with it *)
+Fixpoint somes {A} (l : list (option A)) : list A :=
+  match l with [] => [] | Some x :: r => x :: somes r | None :: r => somes r end.
+Lemma somes_map_Some {A} (l : list A) : somes (map Some l) = l.
+Proof. induction l as [|x r IH]; [reflexivity|]. cbn [map somes]. rewrite IH. reflexivity. Qed.
+Lemma somes_app {A} (a b : list (option A)) : somes (a ++ b) = somes a ++ somes b.
+Proof. induction a as [|[x|] r IH]; cbn [app somes]; [reflexivity | rewrite IH; reflexivity | exact IH]. Qed.
